@@ -10,7 +10,7 @@ EXPLANATION = ('Decides structurally, for the whole analysed program (7 library 
                'handlers matched by type; (R20.2) every throw operand derives from std::exception, bare rethrow only inside a handler; '
                '(R20.3) raw owning pointers of the root scopes are acquired by the last potentially-throwing action of each '
                'constructor and released in the destructor of a non-copyable class; (R20.4) naked new/delete/release() only at the '
-               'enumerated owner sites. Not decided: leak-freedom under arbitrary allocation failure (bad_alloc inside nothrow '
+               'enumerated owner sites; (R20.6) the status result of every rapidjson Accept() is consumed. Not decided: leak-freedom under arbitrary allocation failure (bad_alloc inside nothrow '
                'functions is counted, not armed).')
 ASSUMPTIONS = ['clang 14 front end resolves callees, exception specifications and cast kinds as the real build does (-std=gnu++17 -DNDEBUG)',
                'external callees behave as classified in tables/externals.json (libstdc++, RapidJSON, pugixml)',
@@ -95,6 +95,12 @@ def run(prog, rep):
 
     from rules import stream_window
     stream_window.check(prog, rep, 'R20.5', floor=9)
+
+    # ---------------------------------------------------------------- R20.6 a stopped JSON writer is reported
+    from rules import json_render
+    rep.rule('R20.6', 'the status of every rapidjson Accept() (false = the writer stopped at NaN/Inf or an invalid UTF sequence) is consumed, '
+                      'never dropped: a failed save surfaces as an exception instead of a truncated document', floor=4)
+    json_render.check(prog, rep, 'R20.6', want=('accept',))
 
     # ---------------------------------------------------------------- R20.2 thrown types
     rep.rule('R20.2', 'every throw operand type derives from std::exception; bare "throw;" only inside a handler', floor=60)
